@@ -260,7 +260,7 @@ pub fn report_cross_run(r: &Reader) -> Value {
     let mut i = 0;
     let bytes = txt.as_bytes();
     while i < bytes.len() {
-        if txt[i..].starts_with("urn:c2pa:") || txt[i..].starts_with("urn:uuid:") {
+        if txt.is_char_boundary(i) && (txt[i..].starts_with("urn:c2pa:") || txt[i..].starts_with("urn:uuid:")) {
             let end = txt[i..]
                 .find(|c: char| c == '"' || c == '/' || c == '\\' || c == ' ')
                 .map(|e| i + e)
